@@ -737,7 +737,9 @@ func (f *HashFile) UnmarshalText(b []byte) error {
 		if len(li) != 2 {
 			return ErrChecksumFormat
 		}
-		*f = append(*f, struct{ N, H string }{strings.TrimSpace(li[0]), li[1]})
+		// One blank separates the name from the hash; blanks
+		// in front of the line belong to the file name.
+		*f = append(*f, struct{ N, H string }{strings.TrimRight(li[0], " \t"), li[1]})
 	}
 	if sum != f.Sum() {
 		return ErrChecksumMismatch
